@@ -101,6 +101,10 @@ MUTANTS = [
     ("save_no_truncate", ["C17"], BASE, '        filepath.unlink(missing_ok=True)\n        with open(filepath, "w", newline="\\r\\n", encoding="latin_1") as file:',
      '        filepath.touch()\n        with open(filepath, "r+", newline="\\r\\n", encoding="latin_1") as file:'),
     ("exit_saves_only_on_success", ["C17", "C03"], BASE, "        if self._filepath:\n            self.save(self._filepath)", "        if self._filepath and exc_type is None:\n            self.save(self._filepath)"),
+    ("exit_skips_save_on_keyboardinterrupt", ["C17", "C03"], BASE, "        if self._filepath:\n            self.save(self._filepath)",
+     "        if exc_type is not None and issubclass(exc_type, KeyboardInterrupt):\n            return\n        if self._filepath:\n            self.save(self._filepath)"),
+    ("dispense_swallows_overflow", ["C03", "C02"], BASE, "        labware.add(wells, volumes, label, compositions=compositions)\n        self.comment(label)",
+     "        try:\n            labware.add(wells, volumes, label, compositions=compositions)\n        except liquidhandling.VolumeOverflowError:\n            logger.warning('overflow')\n        self.comment(label)"),
     ("enter_does_not_clear", ["C17"], BASE, "        self.clear()\n        return self", "        return self"),
     ("gwl_check_deleted", ["C17"], BASE, '        assert ".gwl" in filepath.name.lower(), "The filename did not contain the .gwl extension."\n', ""),
     ("save_drops_last_record", ["C17"], BASE, 'file.write("\\n".join(self))', 'file.write("\\n".join(self[:-1] if len(self) > 3 else self))'),
